@@ -50,7 +50,7 @@ def catalogue(K, thorough=False):
             S.GRP_BLOCKED(K), S.GRPBATCH(K), S.EMPTYBATCH(K), S.TWOSRC(K), S.GATE_NONE(K), S.DELAY01_LONG(0),
             S.MAINT2_SCRIPT(K), S.GRPIN(K), S.RES3(K), S.BLOCKED_OUT_SCRIPT(K), S.BUFGATE(K),
             S.BATCH_DIRECT(K, pattern=(2, 2, None), size=3, cap=3, sink_cycle=2),
-            S.BATCH(K, size=2, cap=6, sink_cycle=2), S.BLOCK_SCRIPT(K), S.BUDGET(K, budget=0), S.BATCHSLOW(K), S.RES3L(K), S.LOOP(K), S.GRPPASS(K), S.BUF2_SCRIPT(K), S.EMPTYBATCH_SCRIPT(K), S.BLOCK0(K)]
+            S.BATCH(K, size=2, cap=6, sink_cycle=2), S.BLOCK_SCRIPT(K), S.BUDGET(K, budget=0), S.BATCHSLOW(K), S.RES3L(K), S.LOOP(K), S.GRPPASS(K), S.BUF2_SCRIPT(K), S.EMPTYBATCH_SCRIPT(K), S.BLOCK0(K), S.FLOATNOISE(K)]
     return rows
 
 
@@ -255,7 +255,7 @@ class C11(Check):
         specs = [S.RES(K), S.RES(K, r=2, q=0), S.RES(K + 1, horizon=4), S.RES_SER(K), S.RES_SER(K + 1, horizon=4),
                  S.RES2(K, horizon=5 if K == 1 else 4), S.RES3L(K),
                  S.GRP2(K, horizon=4, resources=True), S.GRPPAR(K, horizon=4, resources=True), S.RES_MAINT(K + 1),
-                 S.RES_WINDOW(K + 1), S.RES_FRAC(K)]
+                 S.RES_WINDOW(K + 1), S.RES_FRAC(K), S.FLOATNOISE(K)]
         return _line_jobs(specs, ['resources'], tier)
 
 
@@ -414,7 +414,8 @@ class C18(Check):
                S.SCHED([(1, 'a'), (0.5, 'b')], True, [('o1', 'default')], K=K, second=[(0.5, 'x'), (1, 'y')]),
                S.SCHED_BLOCK(K - 1), S.SCHED_SAME(K),
                S.SCHED([(1, 'a'), (0.5, 'b')], True, [('o1', 'default')], K=K, inline=True, horizon=4),
-               S.SCHED([(1, 'a'), (0.5, 'b'), (1, 'c')], False, [('o1', 'default')], K=K, inline=True, horizon=4)]
+               S.SCHED([(1, 'a'), (0.5, 'b'), (1, 'c')], False, [('o1', 'default')], K=K, inline=True, horizon=4),
+               S.FLOATNOISE(K - 1)]
         jobs += _line_jobs(sel, ['schedule'], tier)
         # a scheduler created while the line is running / between two runs follows its timetable from its creation on
         late = S.LATE(1, creates=[[6]], horizon=4, name='sched')
